@@ -56,7 +56,8 @@ def run_one(p):
     y = torch.randn(6, 1, generator=g, dtype=torch.float64)
     Xv = torch.randn(3, 3, generator=g, dtype=torch.float64)
     yv = torch.randn(3, 1, generator=g, dtype=torch.float64)
-    want = 'accuracy' if p['maximize'] else 'mse'
+    # the metric only enters through its declared direction (scores are scripted): every built-in metric of either direction
+    want = p.get('metric') or ('accuracy' if p['maximize'] else 'mse')
     other = 'mse' if p['maximize'] else 'accuracy'
     via = p.get('metric_via', 'ctor')
     # how the tuning metric reaches the leaf model: constructor, fit keyword, fit keyword overriding an opposite-direction
@@ -154,6 +155,7 @@ def gen_cases(run):
                           return_best=r.random() < 0.8, adaptive=r.random() < 0.5,
                           kernel=r.choice(['l2', 'l2_high_dim']), diag=r.random() < 0.3, dseed=r.randint(0, 10 ** 6),
                           metric_via=r.choice(['ctor', 'fit', 'fit-flip', 'refit'])))
+        cases[-1]['metric'] = r.choice(['accuracy', 'f1', 'auc']) if cases[-1]['maximize'] else r.choice(['mse', 'rmse', 'mae', 'brier', 'logloss'])
     return cases
 
 
